@@ -169,6 +169,14 @@ func genC19(r *Rand, tier string) Case {
 		w.Stmts = append(w.Stmts, g.stmt())
 	}
 	w.Limit = []int{0, 0, 0, 1, 16}[r.Intn(5)]
+	for _, st := range w.Stmts {
+		if strings.Contains(st, "pipe ") {
+			// writing into a named pipe that nobody reads waits for a reader once the pipe is full: that is
+			// what a pipe does, not a hang of the shell. With the production limit the generated programs
+			// never fill one; with the 1-byte knob two `out x -> <pipe>` do (thorough tier, 3 of 80000 cases)
+			w.Limit = 0
+		}
+	}
 	sc := interpSched(r, 800)
 	if r.Intn(4) == 0 {
 		sc.JumpProb = 0.01
